@@ -89,6 +89,8 @@ def enum_units(tier, seed):
         for idx in (0, 1, 2, 3):
             cases.append({"t": "one", "rom": "low", "ir": host, "files": {}, "layout_seed": None, "fault": f, "steps": [], "index": idx, "indent": "  ", "tail": "", "eof": False})
     cases.append({"t": "one", "rom": "low", "ir": host, "files": {}, "layout_seed": None, "fault": "unterminated-text", "steps": [], "index": 3, "indent": "", "tail": "", "eof": True})
+    for f in SEMANTIC:
+        cases.append({"t": "one", "rom": "low", "ir": host, "files": {}, "layout_seed": None, "fault": f, "steps": [], "index": 3, "indent": "", "tail": "", "eof": False, "decoy": True})
     return {"units": [{"cases": cases}], "exhaustive": False}
 
 
@@ -163,6 +165,10 @@ def check_one(out, case, sub):
     ir = copy.deepcopy(case["ir"])
     marker = {"k": "raw", "lines": [line_text], "_marker": True}
     twins.navigate(ir, tuple(tuple(s) for s in sub["steps"])).insert(sub["index"], marker)
+    if sub.get("decoy"):
+        # the same statement texts occur earlier in the program where they are valid (a block of its own defines the name)
+        at = next((i for i, st in enumerate(ir) if st["k"] in ("org", "reloc")), -1) + 1
+        ir.insert(at, {"k": "raw", "lines": ["{", "undef_zz:"] + list(SEMANTIC.values()) + ["}"]})
     lay = _layout(case.get("layout_seed"))
     if lay is not None:
         # the faulty line itself must stay as written: line-level decorations are applied to other lines only
@@ -272,7 +278,7 @@ def run_case(case) -> Outcome:
                 sub = {"t": "one", "rom": case["rom"], "ir": case["ir"], "files": case.get("files") or {}, "layout_seed": case["layout_seed"], "fault": fault,
                        "steps": [list(s) for s in steps], "index": index, "indent": rng.choice(["", " ", "    ", "\t", " \t"]),
                        "tail": rng.choice(["", "", " ; trailing", "   "]) if not eof and not fault.startswith("unterminated") else "", "eof": eof,
-                       "pad": rng.choice([0] * 30 + [998, 1000, 1234, 2047, 10000]), "incprefix": rng.choice(["", "", "", "./", "../", "abs"])}
+                       "pad": rng.choice([0] * 30 + [998, 1000, 1234, 2047, 10000]), "incprefix": rng.choice(["", "", "", "./", "../", "abs"]), "decoy": rng.random() < 0.3}
                 loc = check_one(out, case, sub)
                 if loc is None:
                     continue
